@@ -58,8 +58,8 @@ theorem intOk_of_le (neg : Bool) (n : Nat) (h : ¬ n > 2147483647) :
   unfold intOk; apply decide_eq_true
   cases neg <;> simp <;> omega
 
-theorem lexInt_ok (neg : Bool) (n : Nat) (r : List Char) (t : BTok) (r' : List Char)
-    (h : lexInt neg n r = .ok (t, r')) : tokOk t = true := by
+theorem lexInt_ok (st : List Char) (neg : Bool) (n : Nat) (r : List Char) (t : BTok) (r' : List Char)
+    (h : lexInt st neg n r = .ok (t, r')) : tokOk t = true := by
   unfold lexInt at h
   split at h
   · cases h
@@ -68,8 +68,8 @@ theorem lexInt_ok (neg : Bool) (n : Nat) (r : List Char) (t : BTok) (r' : List C
     rw [← h.1]
     exact intOk_of_le neg n hn
 
-theorem lexUnit_ok (neg : Bool) (n : Nat) (ds : List Nat) (r : List Char) (t : BTok) (r' : List Char)
-    (h : lexUnit neg n ds r = .ok (t, r')) : tokOk t = true := by
+theorem lexUnit_ok (st : List Char) (neg : Bool) (n : Nat) (ds : List Nat) (r : List Char) (t : BTok) (r' : List Char)
+    (h : lexUnit st neg n ds r = .ok (t, r')) : tokOk t = true := by
   unfold lexUnit at h
   generalize scanWord r = p at h
   obtain ⟨u, r1⟩ := p
@@ -97,14 +97,14 @@ theorem lexUnit_ok (neg : Bool) (n : Nat) (ds : List Nat) (r : List Char) (t : B
           cases neg <;> simp <;> omega
       · cases h
 
-theorem lexNumber_ok (neg : Bool) (cs : List Char) (t : BTok) (r' : List Char)
-    (h : lexNumber neg cs = .ok (t, r')) : tokOk t = true := by
+theorem lexNumber_ok (st : List Char) (neg : Bool) (cs : List Char) (t : BTok) (r' : List Char)
+    (h : lexNumber st neg cs = .ok (t, r')) : tokOk t = true := by
   unfold lexNumber at h
   generalize scanDigits 0 cs = p at h
   obtain ⟨n, r1⟩ := p
   simp only [] at h
   cases r1 with
-  | nil => exact lexInt_ok _ _ _ _ _ h
+  | nil => exact lexInt_ok _ _ _ _ _ _ h
   | cons c r2 =>
     simp only [] at h
     split at h
@@ -116,11 +116,11 @@ theorem lexNumber_ok (neg : Bool) (cs : List Char) (t : BTok) (r' : List Char)
       | cons c' r4 =>
         simp only [] at h
         split at h
-        · exact lexUnit_ok _ _ _ _ _ _ h
+        · exact lexUnit_ok _ _ _ _ _ _ _ h
         · split at h <;> cases h
     · split at h
-      · exact lexUnit_ok _ _ _ _ _ _ h
-      · exact lexInt_ok _ _ _ _ _ h
+      · exact lexUnit_ok _ _ _ _ _ _ _ h
+      · exact lexInt_ok _ _ _ _ _ _ h
 
 theorem ofRes_tokOk {x : Res (BTok × List Char)} (hx : ∀ t r, x = .ok (t, r) → tokOk t = true)
     {t : BTok} {r : List Char} (h : Step.ofRes x = .tok t r) : tokOk t = true :=
@@ -165,11 +165,11 @@ theorem lexStep_tokOk (c : Char) (r : List Char) (t : BTok) (r' : List Char)
   rw [if_neg h9] at h
   by_cases h10 : c = '-'
   · rw [if_pos h10] at h
-    exact ofRes_tokOk (fun t r hx => lexNumber_ok _ _ _ _ hx) h
+    exact ofRes_tokOk (fun t r hx => lexNumber_ok _ _ _ _ _ hx) h
   rw [if_neg h10] at h
   by_cases h11 : (digitVal c).isSome = true
   · rw [if_pos h11] at h
-    exact ofRes_tokOk (fun t r hx => lexNumber_ok _ _ _ _ hx) h
+    exact ofRes_tokOk (fun t r hx => lexNumber_ok _ _ _ _ _ hx) h
   rw [if_neg h11] at h
   by_cases h12 : isAlpha c = true
   · rw [if_pos h12] at h
